@@ -64,7 +64,7 @@ def parse_state_switch(block):
     return table
 
 
-def runtime_tables(src):
+def runtime_tables(src, *extra):
     src = strip_comments(src)
     i = src.find("sqf::runtime::runtime::execute(sqf::runtime::runtime::action action)")
     if i < 0:
@@ -82,6 +82,19 @@ def runtime_tables(src):
             t = parse_state_switch(b)
             if t:     # the inner switch of the scheduler loop assigns no state: not a result -> state table
                 out.append((c.group(1), t))
+        # the table may live in a helper the action calls with the result (`apply_result_to_state(res);`): the helper's own
+        # switch over its parameter is then this action's table
+        for call in re.finditer(r"\b(\w+)\s*\(\s*res\s*\)\s*;", seg):
+            for hsrc in (src,) + tuple(strip_comments(x) for x in extra):
+                d = re.search(r"\b%s\s*\(\s*(?:const\s+)?(?:\w+::)*result\s*(?:&\s*)?(\w+)\s*\)\s*(?:const\s*)?(?:noexcept\s*)?\{" % re.escape(call.group(1)), hsrc)
+                if not d:
+                    continue
+                hb = hsrc[d.end() - 1:balanced(hsrc, d.end() - 1)]
+                for sw in re.finditer(r"switch\s*\(\s*%s\s*\)\s*\{" % re.escape(d.group(1)), hb):
+                    t = parse_state_switch(hb[sw.end() - 1:balanced(hb, sw.end() - 1)])
+                    if t:
+                        out.append((c.group(1), t))
+                break
     if len(out) < 4:
         raise Unrecognised("runtime.cpp: result->state switch blocks not recognised (%d found)" % len(out))
     return out
@@ -243,7 +256,7 @@ def generate():
     rh = open(os.path.join(REPO, "src/runtime/runtime.h")).read()
     sc = open(os.path.join(REPO, "src/export/sqfvm.cpp")).read()
     sh = open(os.path.join(REPO, "src/export/sqfvm.h")).read()
-    blocks = runtime_tables(rc)
+    blocks = runtime_tables(rc, rh)
     res_enum, st_enum = enum_values(rh, "result"), enum_values(rh, "state")
     api = api_tables(sc)
     doc_call, doc_load, doc_status = documented(sh, "sqfvm_call"), documented(sh, "sqfvm_load_config"), documented(sh, "sqfvm_status")
